@@ -109,9 +109,11 @@ def run(p, report, tier):
     okf = len(draws) == 1 and [ast.unparse(a).replace(" ", "") for a in draws[0].args] in (["len(X)", "n_samples"], ["(len(X),n_samples)"])
     report.add("R15.3", smp.qual, "fallback draws (len(X), n_samples)", f"{smp.file}:{smp.node.lineno}", okf,
                detail=norm_stmt(draws[0]) if draws else "no draw")
-    # ---- R15.4
+    # ---- R15.4 (named temporaries substituted back first)
+    from ..astutil import inline_temporaries
+    fit_n = inline_temporaries(fit.node)
     for f, need_std in ((prd, True), (smp, True)):
-        tries = [n for n in ast.walk(f.node) if isinstance(n, ast.Try)]
+        tries = [n for n in ast.walk(inline_temporaries(f.node)) if isinstance(n, ast.Try)]
         okt = False
         why = "no try/except NotFittedError around the delegated call"
         for t in tries:
@@ -137,10 +139,10 @@ def run(p, report, tier):
         okd = not missing
         # default selected by the count of labeled samples
         form = False
-        for n in ast.walk(fit.node):
+        for n in ast.walk(fit_n):
             if isinstance(n, ast.Assign) and any(isinstance(t, ast.Attribute) and t.attr == attr for t in n.targets) \
                     and isinstance(n.value, ast.IfExp):
-                masks = {t.id for a in ast.walk(fit.node) if isinstance(a, ast.Assign) and any(
+                masks = {t.id for a in ast.walk(fit_n) if isinstance(a, ast.Assign) and any(
                     isinstance(c, ast.Call) and c01.callname(c) == "is_labeled" for c in ast.walk(a.value))
                     for t in a.targets if isinstance(t, ast.Name)}
                 masked_body = any(isinstance(x, ast.Subscript) and isinstance(x.slice, ast.Name) and x.slice.id in masks
